@@ -16,8 +16,14 @@ addr case  : {"A": {pan, short, ext}, "B": {pan, short, ext, promisc, implicit},
              | {"exc": cls, ...}
 raw case   : {"B": {...}, "frames": [hex]}      (frames put on B's PHY as they are)
    result  : {"ind": [...], "acks": n_queued}   | {"exc": cls}
-ack case   : {"seq0": n, "ops": [["O", seq] | ["S", wait, [["A", seq] | ["T"]], imm]]}
-   result  : {"sends": [{"ret": bool, "frames": [hex]}], ["exc": cls]}
+ack case   : {"seq0": n, "ops": [["O", seq] | ["S", wait, [["A", seq] | ["T"]], imm(, return_ack)]]}
+             imm = how many leading acknowledgements arrive while the PHY is still transmitting (they
+             are all queued before send_data polls for the first time); return_ack: call
+             MACManager.send_data(..., return_ack=True) directly (as MLME-POLL does)
+   result  : {"sends": [{"ret": bool, "frames": [hex], ["ack_seq": n]}], ["exc": cls]}
+Every case runs under a hard wall-clock limit (CASE_WALL_S, SIGALRM): a case that blocks or sleeps in
+real time is reported as raising WallClock. queue.Queue of the MAC and service modules is replaced by
+VQueue (blocking get with timeout = virtual time).
 hist case  : {"A": {...}, "B": {...}, "seq0": n, "ops": [op]}  one sender, one receiver whose PIB is
              rewritten between frames.  op = ["F", req]                          data request of A
                 | ["U", path, attr, value]   path = "mlme_set" | "db" | "helper" (set_short_address /
@@ -29,7 +35,7 @@ choose case: [framever, dam, sam, dest_panid|null, src_panid|null, has_layer]
    result  : {"bit": n, "view": [hasattr dest_panid, hasattr src_panid, packet.dest_panid, packet.src_panid]}
              | {"exc": cls, "view": ...}
 """
-import sys, json, logging, struct
+import sys, json, logging, struct, signal, queue as _queue
 logging.disable(logging.CRITICAL)
 from scapy.config import conf
 conf.dot15d4_protocol = "zigbee"
@@ -76,14 +82,69 @@ class VirtualTime:
         self.calls += 1
         if self.calls > MAX_CALLS:
             raise Hang()
-        self.now += max(d, TICK)
+        self.now += max(d, 1e-6)
         self.fire()
 
 
 VT = VirtualTime()
+
+
+class VQueue(_queue.Queue):
+    """queue.Queue on the virtual clock: a blocking get with a timeout does not sleep, it advances
+    virtual time tick by tick (delivering the acknowledgements that fall due) until an item is there or
+    the timeout has elapsed. A blocking get WITHOUT timeout on an empty queue could only be served by
+    another thread: there is none here, so it is reported as a hang instead of blocking for ever."""
+    def get(self, block=True, timeout=None):
+        if not block:
+            return _queue.Queue.get(self, block=False)
+        if timeout is None:
+            if self.empty():
+                raise Hang()
+            return _queue.Queue.get(self, block=False)
+        if timeout < 0:
+            raise ValueError("'timeout' must be a non-negative number")
+        deadline = VT.now + timeout
+        while True:
+            try:
+                return _queue.Queue.get(self, block=False)
+            except _queue.Empty:
+                if VT.now >= deadline - 1e-9:
+                    raise
+                VT.sleep(min(TICK, deadline - VT.now))
+
+
 macmod.time = VT.time
 macmod.sleep = VT.sleep
+macmod.Queue = VQueue
 svcmod.time = VT.time      # Dot15d4Service.wait_for_packet (association response wait)
+svcmod.Queue = VQueue
+
+
+class WallClock(Exception):
+    """a single case took more real time than allowed (something blocks or sleeps in real time)"""
+
+
+CASE_WALL_S = 10.0
+
+
+def _on_alarm(signum, frame):
+    raise WallClock()
+
+
+signal.signal(signal.SIGALRM, _on_alarm)
+
+
+def guarded(fn, c, fallback):
+    """Run one case under a hard wall-clock limit; the case is reported as raising WallClock."""
+    signal.setitimer(signal.ITIMER_REAL, CASE_WALL_S)
+    try:
+        return fn(c)
+    except WallClock:
+        out = dict(fallback)
+        out["exc"] = "WallClock"
+        return out
+    finally:
+        signal.setitimer(signal.ITIMER_REAL, 0)
 
 
 @alias('nwk')
@@ -213,7 +274,8 @@ def do_ack(c):
             if o[0] == "O":
                 pa.receive(ack_bytes(o[1]))
                 continue
-            _tag, wait, hist, imm = o
+            _tag, wait, hist, imm = o[:4]
+            return_ack = len(o) > 4 and bool(o[4])
             VT.calls = 0
             VT.sched = []
 
@@ -234,10 +296,22 @@ def do_ack(c):
             n0 = len(pa.frames)
             rec = {}
             try:
-                ret = ma.get_service("data").data(
-                    b"\x00\x01", destination_pan_id=0x1234, destination_address=0x0002,
-                    wait_for_ack=bool(wait))
-                rec["ret"] = ret if isinstance(ret, bool) else type(ret).__name__
+                if return_ack:
+                    # MACManager.send_data(..., return_ack=True) as MLME-POLL uses it: the acknowledgement
+                    # itself (or None) is returned
+                    ack = ma.send_data(
+                        Dot15d4Data(dest_panid=0x1234, dest_addr=0x0002, src_panid=0x1234, src_addr=0x0001) / b"\x00\x01",
+                        wait_for_ack=bool(wait), return_ack=True,
+                        source_address_mode=MACAddressMode.SHORT, destination_address_mode=MACAddressMode.SHORT)
+                    if ack is None or isinstance(ack, bool):
+                        rec["ret"] = bool(ack)
+                    else:
+                        rec["ret"], rec["ack_seq"] = True, int(ack.seqnum)
+                else:
+                    ret = ma.get_service("data").data(
+                        b"\x00\x01", destination_pan_id=0x1234, destination_address=0x0002,
+                        wait_for_ack=bool(wait))
+                    rec["ret"] = ret if isinstance(ret, bool) else type(ret).__name__
             finally:
                 pa.on_tx = None
                 rec["frames"] = pa.frames[n0:]
@@ -368,10 +442,10 @@ def do_choose(c, mac):
 
 def main():
     req = json.load(sys.stdin)
-    res = {"addr": [do_addr(c) for c in req.get("addr", [])],
-           "raw": [do_raw(c) for c in req.get("raw", [])],
-           "ack": [do_ack(c) for c in req.get("ack", [])],
-           "hist": [do_hist(c) for c in req.get("hist", [])]}
+    res = {"addr": [guarded(do_addr, c, {"frames": [], "ind": [], "seq_after": -1}) for c in req.get("addr", [])],
+           "raw": [guarded(do_raw, c, {"ind": [], "acks": [], "dropped": 0}) for c in req.get("raw", [])],
+           "ack": [guarded(do_ack, c, {"sends": []}) for c in req.get("ack", [])],
+           "hist": [guarded(do_hist, c, {"steps": [], "upd": [], "pib": {}}) for c in req.get("hist", [])]}
     if req.get("choose"):
         _p, _s, mac = mk_node({"pan": 1, "short": 2, "ext": 3})
         res["choose"] = [do_choose(c, mac) for c in req["choose"]]
